@@ -355,6 +355,8 @@ func fzFileShapes() []fzFileShape {
 		{name: "generate-line-on-grouped-iface", raw: strings.Replace(strings.Replace(fzValidFile, "type Convergen interface {", "//go:generate x\ntype (\n// Convergen doc.\nConvergen interface {", 1), "\n}\n\nfunc convIS", "\n}\n)\n\nfunc convIS", 1)},
 		{name: "generate-line-last-in-file", raw: fzValidFile + "\n//go:generate x\n"},
 		{name: "go-generate-line", raw: strings.Replace(fzValidFile, "package sc\n", "package sc\n\n//go:generate go run github.com/reedom/convergen\n", 1)},
+		{name: "import-c", raw: strings.Replace(fzValidFile, "package sc\n", "package sc\n\nimport \"C\"\n", 1)},
+		{name: "import-c-with-preamble", raw: strings.Replace(fzValidFile, "package sc\n", "package sc\n\n/*\n#include <stdio.h>\n*/\nimport \"C\"\n", 1)},
 		{name: "cgo-like-comment", raw: strings.Replace(fzValidFile, "package sc\n", "package sc\n\n/*\n#include <stdio.h>\n*/\n", 1)},
 		{name: "type-errors-elsewhere", raw: fzValidFile + "\nfunc broken() int { return \"s\" + 1 }\nvar u Undefined\n"},
 		{name: "redeclared-operand-type", raw: fzValidFile + "\ntype SA struct{ Q int }\n"},
